@@ -113,6 +113,14 @@ class _BetaReduce(ast.NodeTransformer):
     """``(lambda x: E)(a)`` -> ``E[x := a]`` for pure-path arguments,
     ``attrgetter("f")(a)`` -> ``a.f``, ``itemgetter(k)(a)`` -> ``a[k]``."""
 
+    def visit_Subscript(self, n: ast.Subscript):
+        self.generic_visit(n)
+        if isinstance(n.ctx, ast.Load):
+            v = _fold_const_table(n)
+            if v is not None:
+                return v
+        return n
+
     def visit_Call(self, n: ast.Call):
         self.generic_visit(n)
         f = n.func
@@ -129,6 +137,13 @@ class _BetaReduce(ast.NodeTransformer):
                 else:
                     new.append(k)
             n.keywords = new
+        # getattr(x, "name")  ->  x.name   (after a parameter holding the name was substituted by its constant)
+        if (
+            isinstance(f, ast.Name) and f.id == "getattr" and len(n.args) == 2 and not n.keywords
+            and isinstance(n.args[1], ast.Constant) and isinstance(n.args[1].value, str) and n.args[1].value.isidentifier()
+            and not any(isinstance(a, ast.Starred) for a in n.args)
+        ):
+            return ast.copy_location(ast.Attribute(value=n.args[0], attr=n.args[1].value, ctx=ast.Load()), n)
         if n.keywords or any(isinstance(a, ast.Starred) for a in n.args):
             return n
         if isinstance(f, ast.Lambda) and _is_function_value(f) and len(f.args.args) == len(n.args) and all(_is_path_expr(a) for a in n.args):
@@ -151,6 +166,41 @@ class _BetaReduce(ast.NodeTransformer):
                 return parts[0]
             return ast.copy_location(ast.Tuple(elts=parts, ctx=ast.Load()), n)
         return n
+
+
+def _fold_const_table(n: ast.Subscript):
+    """``{K1: V1, K2: V2}[K1]`` -> ``V1``: a dict display subscripted by one
+    of its own keys.  Keys: constants or attribute paths that all differ in
+    their last component (members of one enumeration / distinct literals);
+    values: pure (paths, constants, tuples of those), so dropping the
+    entries not selected drops no effect."""
+    d, k = n.value, n.slice
+    if not (isinstance(d, ast.Dict) and d.keys and all(x is not None for x in d.keys)):
+        return None
+
+    def key_text(x):
+        if isinstance(x, ast.Constant) and isinstance(x.value, (str, int, bool)):
+            return repr(x.value)
+        if isinstance(x, ast.Attribute) and _is_path_expr(x) and x.attr.isupper():
+            return ast.unparse(x)
+        return None
+
+    def pure(v, depth=0):
+        if isinstance(v, ast.Tuple) and depth < 2:
+            return all(pure(e, depth + 1) for e in v.elts)
+        return _is_path_expr(v)
+
+    keys = [key_text(x) for x in d.keys]
+    kt = key_text(k)
+    if kt is None or any(x is None for x in keys) or len(set(keys)) != len(keys) or keys.count(kt) != 1:
+        return None
+    # enumeration members: same owner, different member names (aliases aside, which the pinned enums do not have)
+    owners = {ast.unparse(x.value) for x in list(d.keys) + [k] if isinstance(x, ast.Attribute)}
+    if len(owners) > 1 or (owners and any(isinstance(x, ast.Constant) for x in list(d.keys) + [k])):
+        return None
+    if not all(pure(v) for v in d.values):
+        return None
+    return d.values[keys.index(kt)]
 
 
 def _const_truth(t):
@@ -222,6 +272,50 @@ def _prune_constant_ifs(stmts):
         for h in getattr(x, "handlers", []) or []:
             h.body = _prune_constant_ifs(h.body) or [ast.copy_location(ast.Pass(), h)]
         out.append(x)
+    return out
+
+
+def _stores(st) -> set[str]:
+    return {x.id for x in ast.walk(st) if isinstance(x, ast.Name) and not isinstance(x.ctx, ast.Load)}
+
+
+def _propagate_bound_literals(prefix, body):
+    """A parameter bound to a literal at this call and re-assigned in the
+    helper (`remove=None` ... `if remove is None: remove = <default>`) cannot
+    be substituted; its binding stays a prefix assignment `p = None`.  Down
+    the straight-line top level of the body, tests decided by that literal
+    are decided - until the first statement that stores the name."""
+    env = {}
+    for pa in prefix:
+        if isinstance(pa, ast.Assign) and len(pa.targets) == 1 and isinstance(pa.targets[0], ast.Name) and isinstance(pa.value, ast.Constant):
+            env[pa.targets[0].id] = pa.value
+    if not env:
+        return body
+
+    class _Sub(ast.NodeTransformer):
+        def visit_Name(self, n):
+            if isinstance(n.ctx, ast.Load) and n.id in env:
+                return ast.copy_location(copy.deepcopy(env[n.id]), n)
+            return n
+
+    out = []
+    work = list(body)
+    while work:
+        st = work.pop(0)
+        if not env:
+            out.append(st)
+            continue
+        if isinstance(st, ast.If):
+            v = _const_truth(_Sub().visit(copy.deepcopy(st.test)))
+            if v is not None:
+                work = list(st.body if v else st.orelse) + work
+                continue
+        for nm in _stores(st):
+            env.pop(nm, None)
+        if isinstance(st, (ast.For, ast.While, ast.Try, ast.With, ast.If)) and env:
+            # names stored anywhere inside were dropped above; nothing else is known to change
+            pass
+        out.append(st)
     return out
 
 
@@ -305,21 +399,73 @@ def _kwarg_only_forwarded(fnode, name: str) -> bool:
     return True
 
 
+def _unrollable_for(n, name: str) -> bool:
+    """``for x in <name>: body`` with a plain target that the body never
+    rebinds and no break/continue/else: one copy of the body per element."""
+    if not (isinstance(n, ast.For) and isinstance(n.iter, ast.Name) and n.iter.id == name and isinstance(n.target, ast.Name) and not n.orelse):
+        return False
+    for st in n.body:
+        for x in ast.walk(st):
+            if isinstance(x, (ast.Break, ast.Continue, ast.FunctionDef, ast.Lambda, ast.AsyncFunctionDef)):
+                return False
+            if isinstance(x, ast.Name) and x.id == n.target.id and not isinstance(x.ctx, ast.Load):
+                return False
+    return True
+
+
+def _first_iter_root(ge: ast.GeneratorExp):
+    """The expression a generator expression evaluates at creation: its
+    first iterable; ``range(<path>)`` counts as a path."""
+    it = ge.generators[0].iter
+    if isinstance(it, ast.Call) and isinstance(it.func, ast.Name) and it.func.id in ("range", "enumerate", "reversed") and len(it.args) == 1 and not it.keywords:
+        return it.args[0]
+    return it
+
+
 def _vararg_only_forwarded(fnode, name: str) -> bool:
-    """The ``*name`` parameter is used only as ``g(..., *name)``."""
+    """The ``*name`` parameter is used only as ``g(..., *name)`` or as the
+    iterable of an unrollable ``for`` statement."""
     fwd = set()
     for n in ast.walk(fnode):
         if isinstance(n, ast.Call):
             for x in n.args:
                 if isinstance(x, ast.Starred) and isinstance(x.value, ast.Name) and x.value.id == name:
                     fwd.add(id(x.value))
+        elif _unrollable_for(n, name):
+            fwd.add(id(n.iter))
     uses = [n for n in ast.walk(fnode) if isinstance(n, ast.Name) and n.id == name]
     return bool(uses) and all(id(n) in fwd for n in uses)
 
 
 def _expand_vararg(body, name: str, extra: list[ast.expr]):
     """Replaces ``*name`` in the calls of ``body`` by the positional arguments
-    the caller passed beyond the named parameters."""
+    the caller passed beyond the named parameters; ``for x in name`` loops
+    are unrolled over them."""
+
+    class _Sub(ast.NodeTransformer):
+        def __init__(self, var, e):
+            self.var, self.e = var, e
+
+        def visit_Name(self, n):
+            if n.id == self.var and isinstance(n.ctx, ast.Load):
+                return copy.deepcopy(self.e)
+            return n
+
+    class _Unroll(ast.NodeTransformer):
+        def visit_For(self, n):
+            self.generic_visit(n)
+            if not _unrollable_for(n, name):
+                return n
+            out = []
+            for e in extra:
+                if not _is_pure_path(e):
+                    out.append(ast.copy_location(ast.Assign(targets=[ast.Name(n.target.id, ast.Store())], value=copy.deepcopy(e)), n))
+                    out += [copy.deepcopy(b) for b in n.body]
+                else:
+                    out += [_Sub(n.target.id, e).visit(copy.deepcopy(b)) for b in n.body]
+            return out or [ast.copy_location(ast.Pass(), n)]
+
+    body[:] = [y for st in body for y in (lambda r: r if isinstance(r, list) else [r])(_Unroll().visit(st))]
     for st in body:
         for n in ast.walk(st):
             if isinstance(n, ast.Call):
@@ -330,6 +476,12 @@ def _expand_vararg(body, name: str, extra: list[ast.expr]):
                     else:
                         new.append(x)
                 n.args = new
+
+
+def _is_pure_path(e) -> bool:
+    while isinstance(e, ast.Attribute):
+        e = e.value
+    return isinstance(e, (ast.Name, ast.Constant))
 
 
 def _expand_kwarg(body, name: str, extra: list[ast.keyword]):
@@ -632,11 +784,16 @@ class Normalizer:
                 return None
             args[pos[0]] = recv
             pos = pos[1:]
-        if any(isinstance(x, ast.Starred) for x in call.args) or any(k.arg is None for k in call.keywords):
+        if any(isinstance(x, ast.Starred) for x in call.args):
+            return None
+        # `**name` at the call is handed on to the helper's own `**kwargs` (which it only forwards)
+        if any(k.arg is None and not (a.kwarg and isinstance(k.value, ast.Name)) for k in call.keywords):
             return None
         for p, v in zip(pos, call.args):
             args[p] = v
         for k in call.keywords:
+            if k.arg is None:
+                continue
             if a.kwarg and k.arg not in params and k.arg not in kwonly:
                 continue  # collected by **kwargs, forwarded verbatim (see _expand_kwarg)
             args[k.arg] = k.value
@@ -737,9 +894,6 @@ class Normalizer:
             known = {p.arg for p in t.node.args.posonlyargs + t.node.args.args + t.node.args.kwonlyargs}
             extra = [k for k in call.keywords if k.arg not in known]
             _expand_kwarg(body, t.node.args.kwarg.arg, extra)
-        if t.node.args.vararg is not None:
-            n_named = len(t.node.args.posonlyargs + t.node.args.args) - (1 if t.cls is not None and not t.is_static else 0)
-            _expand_vararg(body, t.node.args.vararg.arg, list(call.args[n_named:]))
         # argument expressions keep the module they were written in (their
         # types and global names are looked up there, not in the helper's module)
         site_mod = getattr(call, "_origin_mod", None) or fi.module.name
@@ -749,8 +903,20 @@ class Normalizer:
                     if not hasattr(n_, "_origin_mod"):
                         n_._origin_mod = site_mod  # type: ignore[attr-defined]
                         n_._origin_path = getattr(call, "_origin_path", None) or fi.module.relpath  # type: ignore[attr-defined]
+        if t.node.args.vararg is not None:
+            n_named = len(t.node.args.posonlyargs + t.node.args.args) - (1 if t.cls is not None and not t.is_static else 0)
+            extra_pos = list(call.args[n_named:])
+            for v_ in extra_pos:
+                for n_ in ast.walk(v_):
+                    if not hasattr(n_, "_origin_mod"):
+                        n_._origin_mod = site_mod  # type: ignore[attr-defined]
+                        n_._origin_path = getattr(call, "_origin_path", None) or fi.module.relpath  # type: ignore[attr-defined]
         ren = _Rename(mapping)
         body = [_BetaReduce().visit(ren.visit(x)) for x in body]
+        if t.node.args.vararg is not None:
+            # after the renaming: the caller's expressions must not be captured by the helper's locals
+            va = mapping.get(t.node.args.vararg.arg, t.node.args.vararg.arg)
+            _expand_vararg(body, va if isinstance(va, str) else t.node.args.vararg.arg, extra_pos)
         # an argument whose static type is not Optional decides `x is None`
         # tests on the parameter it is substituted for (default handling of an
         # optional parameter that this call does pass)
@@ -763,16 +929,33 @@ class Normalizer:
                     ty = None
                 if ty and "None" not in ty and "Any" not in ty and "Optional" not in ty and ty.startswith(("job_shop_lib.", "builtins.")):
                     nonnull.add(ast.unparse(v_))
+                # a module-level name bound to a function value / a def / a class is never None
+                local_ = True
+                if isinstance(v_, ast.Name) and v_.id not in fi.params:
+                    try:
+                        local_ = bool(self.ctx.flow.defs(fi).of(v_.id))
+                    except Exception:  # pragma: no cover
+                        local_ = True
+                if isinstance(v_, ast.Name) and not local_:
+                    site_mi = self.ctx.repo.modules.get(getattr(v_, "_origin_mod", None) or fi.module.name)
+                    if site_mi is not None:
+                        mv = site_mi.assigns.get(v_.id)
+                        if (mv is not None and _is_function_value(mv)) or v_.id in site_mi.functions or v_.id in site_mi.classes:
+                            nonnull.add(v_.id)
         if nonnull:
-            for x in body:
-                for n_ in ast.walk(x):
-                    if isinstance(n_, ast.If) and isinstance(n_.test, ast.Compare) and len(n_.test.ops) == 1 and isinstance(n_.test.ops[0], (ast.Is, ast.IsNot)) \
-                            and isinstance(n_.test.comparators[0], ast.Constant) and n_.test.comparators[0].value is None \
-                            and ast.unparse(n_.test.left) in nonnull:
-                        n_.test = ast.copy_location(ast.Constant(value=isinstance(n_.test.ops[0], ast.IsNot)), n_.test)
+            class _Decide(ast.NodeTransformer):
+                def visit_Compare(self, c_):
+                    self.generic_visit(c_)
+                    if len(c_.ops) == 1 and isinstance(c_.ops[0], (ast.Is, ast.IsNot)) and isinstance(c_.comparators[0], ast.Constant) \
+                            and c_.comparators[0].value is None and ast.unparse(c_.left) in nonnull:
+                        return ast.copy_location(ast.Constant(value=isinstance(c_.ops[0], ast.IsNot)), c_)
+                    return c_
+
+            body = [_Decide().visit(x) for x in body]
         # flags passed as literals decide their branches (`if with_job_nodes:`
         # with with_job_nodes=False at this call)
         body = _prune_constant_ifs(body)
+        body = _propagate_bound_literals(prefix, body)
         body = [_BetaReduce().visit(x) for x in body]  # attrgetter("a")(x) left behind by a folded conditional
         _simplify_bound_displays(prefix, body)
         self._unroll_reflection(fi, prefix, body)
@@ -1056,6 +1239,43 @@ class Normalizer:
         # but on the caller's receiver class
         return FuncInfo(t.qualname, t.name, t.node, t.module, fi.cls if t.cls is not None else None, t.parent, t.decorators)
 
+    def _desugar_for_genexp(self, fi, st):
+        """``for x in (E for v in IT if C): BODY`` is ``for v in IT: if C:
+        x = E; BODY`` - the interleaving the generator protocol performs.
+        One ``for`` clause only (so break/continue keep their meaning); the
+        clause's variables become function-level names, refused on a clash."""
+        if not (isinstance(st, ast.For) and isinstance(st.iter, ast.GeneratorExp) and not st.orelse and len(st.iter.generators) == 1):
+            return None
+        g = st.iter.generators[0]
+        if g.is_async:
+            return None
+        ge = st.iter
+        tnames = {x.id for x in ast.walk(g.target) if isinstance(x, ast.Name)}
+        inside = {id(y) for y in ast.walk(ge)}
+        # the root still holds the call this expression was an argument of (an inlined helper's parameter)
+        dump = ast.dump(ge)
+        for n in ast.walk(getattr(self, "_flat_root", st)):
+            if isinstance(n, ast.GeneratorExp) and n is not ge and ast.dump(n) == dump:
+                inside |= {id(y) for y in ast.walk(n)}
+        outside = {n.id for n in ast.walk(getattr(self, "_flat_root", st)) if isinstance(n, ast.Name) and id(n) not in inside}
+        if any(t != "_" and t in outside for t in tnames):
+            return None
+        if any(isinstance(x, (ast.NamedExpr, ast.Yield, ast.YieldFrom, ast.Await)) for x in ast.walk(ge)):
+            return None
+        bind = ast.Assign(targets=[copy.deepcopy(st.target)], value=ge.elt)
+        inner: list[ast.stmt] = [bind] + list(st.body)
+        if g.ifs:
+            # `continue` in BODY still means "next element"; the filter must not swallow it - it does not:
+            # an If is no loop
+            test = g.ifs[0] if len(g.ifs) == 1 else ast.BoolOp(op=ast.And(), values=list(g.ifs))
+            inner = [ast.If(test=test, body=inner, orelse=[])]
+        new = ast.For(target=g.target, iter=g.iter, body=inner, orelse=[])
+        ast.copy_location(new, st)
+        ast.fix_missing_locations(new)
+        if isinstance(getattr(self, "_caller_names", None), set):
+            self._caller_names |= tnames
+        return [new]
+
     def _desugar_comp(self, fi, st, banned):
         """``x = [helper(args) for v in it]`` (also as return / annotated
         assignment) with an inlinable private helper becomes the explicit
@@ -1065,7 +1285,11 @@ class Normalizer:
         value = getattr(st, "value", None)
         if not isinstance(st, (ast.Assign, ast.AnnAssign, ast.Return)) or not isinstance(value, ast.ListComp):
             return None
-        if not isinstance(value.elt, ast.Call) or self._inline_target(fi, value.elt, banned) is None:
+        # also: a clause that iterates over a generator expression (`for pool in
+        # (list(ids) for _ in range(n))` - a binding per element written as an
+        # iterable), which only the statement form can write out
+        over_genexp = any(isinstance(g.iter, ast.GeneratorExp) and len(g.iter.generators) == 1 for g in value.generators)
+        if not over_genexp and (not isinstance(value.elt, ast.Call) or self._inline_target(fi, value.elt, banned) is None):
             return None
         if isinstance(st, ast.Assign) and not (len(st.targets) == 1 and isinstance(st.targets[0], ast.Name)):
             return None
@@ -1213,9 +1437,15 @@ class Normalizer:
         while i + 1 < len(out):
             a, b = out[i], out[i + 1]
             if (
-                isinstance(a, ast.Assign) and len(a.targets) == 1 and isinstance(a.targets[0], ast.Name) and isinstance(a.value, ast.Call)
-                and isinstance(b, ast.For) and self._inline_target(fi, a.value, banned, gen=True) is not None
-                and all(_is_path_expr(x) for x in a.value.args) and all(k.arg is not None and _is_path_expr(k.value) for k in a.value.keywords)
+                isinstance(a, ast.Assign) and len(a.targets) == 1 and isinstance(a.targets[0], ast.Name) and isinstance(b, ast.For)
+                and (
+                    # a generator expression evaluates only its first iterable when it is created
+                    (isinstance(a.value, ast.GeneratorExp) and _is_path_expr(_first_iter_root(a.value)))
+                    or (
+                        isinstance(a.value, ast.Call) and self._inline_target(fi, a.value, banned, gen=True) is not None
+                        and all(_is_path_expr(x) for x in a.value.args) and all(k.arg is not None and _is_path_expr(k.value) for k in a.value.keywords)
+                    )
+                )
             ):
                 name = a.targets[0].id
                 it = b.iter
@@ -1244,6 +1474,8 @@ class Normalizer:
                 changed = False
                 for st in stmts:
                     rep = self._desugar_comp(fi, st, banned)
+                    if rep is None:
+                        rep = self._desugar_for_genexp(fi, st)
                     if rep is None:
                         rep = self._desugar_chain(fi, st)
                     if rep is None:
@@ -1585,6 +1817,20 @@ class Normalizer:
         return ff
 
     # ----------------------------------------------------------- expansion
+    def _pinned_public(self, t: FuncInfo, fi: FuncInfo) -> bool:
+        """A name of the pinned public surface called from another class /
+        module: rules know it by name, so it stays a call however short its
+        body has become."""
+        from .baseline_api import PUBLIC_CALLABLES
+
+        if t.name.startswith("_"):
+            return False
+        key = (t.cls.name + "." if t.cls is not None else "") + t.name
+        if key not in PUBLIC_CALLABLES:
+            return False
+        same_cls = t.cls is not None and fi.cls is not None and (t.cls.qualname in fi.cls.mro or fi.cls.qualname in t.cls.mro)
+        return not same_cls and t.module is not fi.module
+
     def xexpr(self, fi: FuncInfo, node: ast.AST, depth: int = 6, _seen=None) -> ast.AST:
         """Copy of ``node`` with single-definition local aliases substituted
         and one-expression helper calls replaced by their expression."""
@@ -1695,6 +1941,11 @@ class Normalizer:
                 self.generic_visit(c)
                 if depth <= 0:
                     return c
+                # a local alias of attrgetter(..)/itemgetter(..) applied: `get = attrgetter("f"); get(x)` -> `x.f`
+                if isinstance(c.func, ast.Call) and _is_function_value(c.func):
+                    r = _BetaReduce().visit(c)
+                    if r is not c:
+                        return r
                 # list(map(F, X)) / tuple(map(F, X)) with a known one-argument F
                 if (
                     isinstance(c.func, ast.Name) and c.func.id in ("list", "tuple") and len(c.args) == 1 and not c.keywords
@@ -1721,7 +1972,7 @@ class Normalizer:
                     ts, _ = norm.ctx.res.callees(fi, c, fi.cls)
                 except Exception:
                     return c
-                if len(ts) == 1 and not isinstance(ts[0].node, ast.Lambda):
+                if len(ts) == 1 and not isinstance(ts[0].node, ast.Lambda) and not norm._pinned_public(ts[0], fi):
                     t = ts[0]
                     body = [s for s in body_of(t.node) if not isinstance(s, ast.Assert)]
                     if len(body) == 1 and isinstance(body[0], ast.Return) and body[0].value is not None and not t.decorators or (
@@ -1734,6 +1985,24 @@ class Normalizer:
                             # helpers used by the helper: expand again in the
                             # helper's own scope (no local aliases there)
                             return norm.xexpr(norm._tmp_fi(t, fi), e, depth - 1, _seen) if depth > 1 else e
+                    elif (
+                        len(body) > 1 and isinstance(body[-1], ast.Return) and body[-1].value is not None and depth > 1
+                        and (not t.decorators or t.is_static or t.is_classmethod)
+                        and all(
+                            isinstance(s_, ast.Assign) and len(s_.targets) == 1 and isinstance(s_.targets[0], ast.Name) and _is_path_expr(s_.value)
+                            for s_ in body[:-1]
+                        )
+                        and len({s_.targets[0].id for s_ in body[:-1]}) == len(body) - 1
+                        and not ({s_.targets[0].id for s_ in body[:-1]} & set(t.params))
+                    ):
+                        # named sub-expressions (`table = inst.table`) followed by the returned expression:
+                        # the names are spelt out in the helper's own scope first, then the arguments go in
+                        b = norm._bind(t, c, "x", subst_all=True)
+                        if b is not None and not b[0]:
+                            e = norm.xexpr(t, body[-1].value, depth - 1, _seen)
+                            left = {n_.id for n_ in ast.walk(e) if isinstance(n_, ast.Name)} & {s_.targets[0].id for s_ in body[:-1]}
+                            if not left:
+                                return _Rename(b[1]).visit(copy.deepcopy(e))
                 return c
 
         dup = copy.deepcopy(node)
